@@ -25,7 +25,7 @@ EXP = {
     "float": {"1.5": 1.5, "0": 0.0, "-2": -2.0, "1e-7": 1e-7,
               "3 (integral)": 3.0},
     "fint": {"3": 3, "0": 0, "1": 1},
-    "fbool": {"true": True, "false": False},
+    "fbool": {"true": True, "false": False, "true (fraction)": True},
     "fboolorfloat": {"true": True, "false": False, "2.5": 2.5,
                      "1 (one)": 1.0},
     "fintlist": {"[1,2,3]": [1, 2, 3], "[]": [], "[7]": [7], "[0,2]": [0, 2]},
@@ -36,6 +36,14 @@ EXP = {
 
 def conc(t, p, r):
     v = EXP[t][p]
+    if r == "fraction":
+        return 0.5
+    if r == "fraction string":
+        return "0.25"
+    if r == "negative fraction":
+        return -0.5
+    if r == "fraction bytes":
+        return b"0.125"
     if r in ("native", "str", "list"):
         return v.tolist() if (r == "list" and isinstance(v, np.ndarray)) \
             else (list(v) if r == "list" else v)
